@@ -253,6 +253,13 @@ def _fixed_den_cases():
         ({"pattern": [{"mov": [{"$or": [0, 7]}, "eax"]}]}, R(("mov", ["0x0", "%eax"]))),
         ({"pattern": [{"mov": [{"$and": [0, "eax"]}]}]}, R(("mov", ["%eax", "%ebx"]))),
         ({"pattern": [{"mov": [{"$and_any_order": ["eax", 0]}]}]}, R(("mov", ["0x0", "%eax"]), ("mov", ["%eax", "%ebx"]))),
+        # an operator nested in $and_any_order is ONE unit of the permutation: its items stay together and in order
+        ({"pattern": ["push", {"$and_any_order": ["nop", {"$and": ["inc", "dec"]}]}, "leave"]},
+         R(("push", [""]), ("inc", [""]), ("nop", [""]), ("dec", [""]), ("leave", [""]))),
+        ({"pattern": ["push", {"$and_any_order": ["nop", {"$and": ["inc", "dec"]}]}, "leave"]},
+         R(("push", [""]), ("nop", [""]), ("dec", [""]), ("inc", [""]), ("leave", [""]))),
+        ({"pattern": ["push", {"$and_any_order": ["nop", {"$and": ["inc", "dec"]}]}, "leave"]},
+         R(("push", [""]), ("inc", [""]), ("dec", [""]), ("nop", [""]), ("leave", [""]))),
         # repeated children of $and_any_order: each child is used exactly once
         ({"pattern": ["push", {"$and_any_order": ["nop", "nop", "ret"]}, "pop"]}, R(("push", [""]), ("nop", [""]), ("ret", [""]), ("pop", [""]))),
         ({"pattern": ["push", {"$and_any_order": ["nop", "nop", "ret"]}, "pop"]}, R(("push", [""]), ("nop", [""]), ("nop", [""]), ("ret", [""]), ("pop", [""]))),
